@@ -9,7 +9,10 @@ def run_mux(items, *ops_):
     import rxsci as rs
     out = []
     err = []
-    rx.from_(list(items)).pipe(rs.state.with_memory_store(rx.pipe(*ops_))).subscribe(on_next=out.append, on_error=err.append)
+    try:
+        rx.from_(list(items)).pipe(rs.state.with_memory_store(rx.pipe(*ops_))).subscribe(on_next=out.append, on_error=err.append)
+    except Exception as ex:          # an exception escaping the pipeline is an error outcome, not a crash of the check
+        return ('ERROR', f'raised {type(ex).__name__}: {ex}')
     if err:
         return ('ERROR', repr(err[0]))
     return out
@@ -19,7 +22,10 @@ def run_plain(items, *ops_):
     import rx
     out = []
     err = []
-    rx.from_(list(items)).pipe(*ops_).subscribe(on_next=out.append, on_error=err.append)
+    try:
+        rx.from_(list(items)).pipe(*ops_).subscribe(on_next=out.append, on_error=err.append)
+    except Exception as ex:
+        return ('ERROR', f'raised {type(ex).__name__}: {ex}')
     if err:
         return ('ERROR', repr(err[0]))
     return out
